@@ -18,15 +18,15 @@ def run(ctx):
     th = ctx.tier == "thorough"
     exe = exes["h_merger"]
     ctx.fan(exe, "c05l", 8000 if th else 300, timeout=120)
-    ctx.fan(exe, "c05x", 1500 if th else 64, chunk=1 if not th else None, timeout=600)
-    ctx.fan(exe, "c05h", 30000 if th else 700, timeout=120)
+    ctx.fan(exe, "c05x", 1500 if th else 40, chunk=1 if not th else None, timeout=600)
+    ctx.fan(exe, "c05h", 30000 if th else 500, timeout=120)
     s = ctx.stats
     lookups = s.get("lookups.get", 0) + s.get("lookups.get_prefix", 0) + s.get("lookups.get_range", 0)
     need = ["matrix.iter.mid.key-just-returned", "matrix.iter.mid.forward", "matrix.iter.mid.backward", "matrix.iter.mid.past-end", "matrix.iter.exhausted.no-current",
             "matrix.iter.fresh.no-current", "matrix.iter.sought-unread.no-current", "matrix.get_range.mid.key-just-returned", "matrix.get_range.mid.backward",
             "matrix.get_prefix.mid.forward", "matrix.get.mid.key-just-returned", "matrix.get_range.exhausted.no-current"]
     floors = {k: 1 for k in need}
-    floors.update({"seek_checks": 100000, "histories": 1500, "c05.mode.dupsort": 100, "c05.mode.merge-function": 500, "lookups.get.nonempty_answer": 5000,
+    floors.update({"seek_checks": 100000, "histories": 1000, "c05.mode.dupsort": 100, "c05.mode.merge-function": 500, "lookups.get.nonempty_answer": 5000,
                    "lookups.get_range.inverted": 300, "history.seek_after_exhaustion": 100, "history.seek_target.key-just-returned": 200,
                    "family.keys.multiplicity_3plus": 2000, "family.cases_with_user_sources": 100, "monitor.buffer_stability_checks": 100000})
     ctx.assumptions += ["oracle = one table holding the merged content (merge-function mode) or the flat (key, value)-sorted union (dupsort mode, where the model position is (key, rank among equals))",
